@@ -153,7 +153,8 @@ def run_hypothesis(td: TestDef, n_examples: int, seed: int, col: Collector, tier
         col.save_failure(td.name, spec, v, res.info)
         state["failed"] = True
         if res.expensive:
-            state["budget"] = min(state["budget"], 3)
+            state["budget"] = min(state["budget"], 2)
+            state["expensive"] = True
         raise _Fail(v.clause)
 
     phases = [Phase.generate, Phase.shrink]
@@ -183,7 +184,7 @@ def run_hypothesis(td: TestDef, n_examples: int, seed: int, col: Collector, tier
                     f"unexpected {type(e).__name__} in {td.name}: {e}\n{traceback.format_exc()}"
                 )
         new_keys = set(col.failures) - before
-        if not state["failed"] or not new_keys:
+        if not state["failed"] or not new_keys or state.get("expensive"):
             break
         # continue the search behind the confirmed failure (bucketed by clause)
         for _t, clause in new_keys:
